@@ -118,7 +118,7 @@ VERIFICATION_MSGS = (
     "assertion failed", "possible arithmetic underflow/overflow", "possible division by zero",
     "decreases not satisfied", "loop invariant", "possible bit shift underflow/overflow",
     "recommendation not met", "unreachable", "cannot show", "possible", "might fail",
-    "could not show termination", "failed to", "assertion failure",
+    "could not show termination", "failed to", "assertion failure", "unable to prove",
 )
 
 
